@@ -36,7 +36,7 @@ func TestMain(m *testing.M) {
 	if os.Getenv("GAE_APPLICATION") == "" {
 		os.Setenv("GAE_APPLICATION", "s~verif")
 	}
-	vh.Main(m, rec, recX)
+	vh.Main(m, rec, recX, recL)
 }
 
 type Backend struct {
